@@ -208,7 +208,7 @@ def _nlri_change_sites_deep(prog):
     for k in crate_fns(prog, "rustybgp_table"):
         if "rustybgp_table::NlriChange" not in " ".join(prog.ix[k].get("aggs", [])):
             continue
-        fv = view_deep(prog, k)
+        fv = view_deep(prog, k, only=("call",))
         for bi, si, s in fv.aggregates(NLRI_CHANGE):
             if s.get("x"):
                 continue
